@@ -208,8 +208,13 @@ def run_inprocess(data_text: str, pool=None, summary=False, **argkw) -> Rec:
         rec.ckpt_calls += 1
         return orig_ck(*a, **k)
 
+    coldesc = argkw.pop('_coldesc', 'list')
+
     def est(**kw):
         kw['logger'] = cap
+        if coldesc == 'tuple' and isinstance(kw.get('column_descriptions'), list):
+            # a library caller holding the column names in a tuple (the task itself passes the list read from the header)
+            kw['column_descriptions'] = tuple(kw['column_descriptions'])
         out = orig_est(**kw)
         if rec.batches:
             rec.disk_after.append(disk())
@@ -287,6 +292,7 @@ def cli_run(data_text: str, hashseed='0', timeout=600, shim_hash=False, **argkw)
     """`python -m outrank --task ranking …` in a fresh process, cwd = a temp dir; returns (rows of pairwise_ranks.tsv | None, log tail).
     `shim_hash`: start the same CLI with `internal_hash` wrapped from outside so that it accepts non-str values (the noise-control
     configuration cannot run otherwise) – nothing else is touched."""
+    argkw = {k: v for k, v in argkw.items() if not k.startswith('_')}      # in-process-only switches
     d = tempfile.mkdtemp(prefix='verif_cli_')
     try:
         with open(os.path.join(d, 'data.csv'), 'w', newline='') as fh:
